@@ -70,10 +70,12 @@ theorem Later.of_set_aux {c : Cfg} {s s' : St} {i : Nat} {t : Tracker}
   refine ⟨hf, by rw [htrk]; simp, fun j _ => ⟨hgi j, hgc j, hgb j⟩, fun j _ _ => ⟨hgs j, hgr j⟩, ?_, ?_,
     fun _ => ⟨[], by simp [hjobs]⟩, ?_, hnow, hnbc, by rw [hnc]; exact Nat.le_refl _,
     by rw [hpos]; exact Nat.le_refl _, by simp only [work, hready, hpos, hf.spec]; exact Nat.le_refl _,
-    by rw [hit, hor]; exact id, by rw [hready, hdead]; exact fun a b => ⟨a, b⟩⟩
+    by rw [hit, hor]; exact id, by rw [hready, hdead]; exact fun a b => ⟨a, b⟩, ?_⟩
   · intro _; simp only [meas, unpopped, work, hjobs, hjs, hparked, hready, hpos, hf.spec]; exact Nat.le_refl _
   · intro _ _; simp only [JoblibModel.ParallelProto.restS, hjobs, hready, hpos, hf.spec, hf.base, hgi]
   · intro hp; simp only [Post, hab, hit, hready, hdead] at hp ⊢; exact hp
+  · intro _; simp only [JoblibModel.ParallelProto.restS, hjobs, hready, hpos, hf.spec, hf.base, hgi]
+    exact Nat.le_refl _
 
 /-- An error is registered on the pending tracker `i`: a `Later` step. -/
 theorem Later.of_fail {c : Cfg} {s s' : St} {i : Nat} {r : Res}
@@ -88,10 +90,14 @@ theorem Later.of_fail {c : Cfg} {s s' : St} {i : Nat} {r : Res}
   refine ⟨hf, by rw [htrk]; simp, ?_, ?_, by rw [hab]; simp, by rw [hab]; simp, ?_,
     by intro _ h3; rw [hab] at h3; simp at h3, hnow, hnbc, by rw [hnc]; exact Nat.le_refl _,
     by rw [hpos]; exact Nat.le_refl _, by simp only [work, hready, hpos, hf.spec]; exact Nat.le_refl _,
-    by rw [hit, hor]; exact id, by rw [hready, hdead]; exact fun a b => ⟨a, b⟩⟩
+    by rw [hit, hor]; exact id, by rw [hready, hdead]; exact fun a b => ⟨a, b⟩, ?_⟩
   · intro j _; rw [hg]; grind
   · intro j _ hs; rw [hg]; grind
   · intro ho; exact ⟨[], by simp [hjobs, ho]⟩
+  · intro ho
+    have hgi : ∀ j, (getTrk s' j).items = (getTrk s j).items := by intro j; rw [hg]; grind
+    simp only [JoblibModel.ParallelProto.restS, hjobs, ho, if_true, hready, hpos, hf.spec, hf.base, hgi]
+    exact Nat.le_refl _
 
 theorem Inv.set_aux {c : Cfg} {t0 : Nat} {s s' : St} {i : Nat} {t : Tracker} (h : Inv c t0 s)
     (ht : t.items = (getTrk s i).items ∧ t.bsize = (getTrk s i).bsize ∧ t.callId = (getTrk s i).callId ∧
@@ -194,6 +200,103 @@ theorem getStatus_spec {c : Cfg} {t0 : Nat} {s : St} {i : Nat} (h : Inv c t0 s)
     simp only at hst
     rw [hp1] at hst; cases hst
 
+theorem registerOutcome_core (c : Cfg) (s : St) (i : Nat) (st : Status) (r : Res) :
+    (registerOutcome c s i st r).trk.length = s.trk.length ∧
+    (∀ j, (getTrk (registerOutcome c s i st r) j).items = (getTrk s j).items) ∧
+    (registerOutcome c s i st r).ready = s.ready ∧ (registerOutcome c s i st r).srcPos = s.srcPos ∧
+    (registerOutcome c s i st r).preLeft = s.preLeft ∧ (registerOutcome c s i st r).nCompleted = s.nCompleted ∧
+    (registerOutcome c s i st r).parked = s.parked := by
+  by_cases hp : (getTrk s i).status = .pending
+  · have key : ∃ s', registerOutcome c s i st r = s' ∧ s'.trk = s.trk.set i { getTrk s i with status := st, result := r } ∧
+        s'.ready = s.ready ∧ s'.srcPos = s.srcPos ∧ s'.preLeft = s.preLeft ∧ s'.nCompleted = s.nCompleted ∧
+        s'.parked = s.parked := by
+      unfold registerOutcome
+      simp only
+      rw [if_neg (by simp [hp])]
+      refine ⟨_, rfl, ?_⟩
+      split <;> split <;> exact ⟨rfl, rfl, rfl, rfl, rfl, rfl⟩
+    obtain ⟨s', e, h1, h2, h3, h4, h5, h6⟩ := key
+    rw [e]
+    refine ⟨by rw [h1]; simp, fun j => ?_, h2, h3, h4, h5, h6⟩
+    rw [getTrk_set h1]; grind
+  · rw [registerOutcome_nonpending hp]
+    exact ⟨rfl, fun _ => rfl, rfl, rfl, rfl, rfl, rfl⟩
+
+theorem getStatus_core (c : Cfg) (s : St) (i : Nat) :
+    (getStatus c s i).1.trk.length = s.trk.length ∧
+    (∀ j, (getTrk (getStatus c s i).1 j).items = (getTrk s j).items) ∧
+    (getStatus c s i).1.ready = s.ready ∧ (getStatus c s i).1.srcPos = s.srcPos ∧
+    (getStatus c s i).1.preLeft = s.preLeft ∧ (getStatus c s i).1.nCompleted = s.nCompleted ∧
+    (getStatus c s i).1.parked = s.parked := by
+  unfold getStatus
+  simp only
+  split
+  · exact ⟨rfl, fun _ => rfl, rfl, rfl, rfl, rfl, rfl⟩
+  · have h1 : ∀ t, (setTrk s i { getTrk s i with toCounter := t }).trk.length = s.trk.length := by
+      intro t; simp [setTrk]
+    have h2 : ∀ t j, (getTrk (setTrk s i { getTrk s i with toCounter := t }) j).items = (getTrk s j).items := by
+      intro t j; rw [getTrk_setTrk]; grind
+    split
+    · obtain ⟨a1, a2, a3, a4, a5, a6, a7⟩ := registerOutcome_core c
+        (setTrk s i { getTrk s i with toCounter := some ((getTrk s i).toCounter.getD s.now) }) i .error
+        (.exc .timeout)
+      exact ⟨a1.trans (h1 _), fun j => (a2 j).trans (h2 _ j), a3, a4, a5, a6, a7⟩
+    · exact ⟨h1 _, h2 _, rfl, rfl, rfl, rfl, rfl⟩
+
+theorem getStatus_B {c : Cfg} {t0 : Nat} {s : St} (i : Nat) (h : InvB c t0 s) : InvB c t0 (getStatus c s i).1 := by
+  obtain ⟨a1, a2, a3, a4, a5, a6, _⟩ := getStatus_core c s i
+  exact InvB_mono h a1 a2 a3 a4 a5 (by rw [a6]; exact Nat.le_refl _)
+
+theorem getStatus_ownParked (c : Cfg) (t0 : Nat) (s : St) (i : Nat) :
+    ownParked t0 (getStatus c s i).1 = ownParked t0 s := by
+  simp only [ownParked, (getStatus_core c s i).2.2.2.2.2.2]
+
+/-- `get_status` in unordered mode. -/
+theorem getStatus_U {c : Cfg} {t0 : Nat} {s : St} {i : Nat} (ho : ordered c = false) (hU : InvU t0 s)
+    (hi0 : t0 ≤ i) (hi1 : i < s.trk.length) : UStep t0 s (getStatus c s i).1 := by
+  obtain ⟨a1, a2, a3, a4, a5, a6, a7⟩ := getStatus_core c s i
+  have hjs : (getStatus c s i).1.jobsSet = s.jobsSet := by
+    unfold getStatus
+    simp only
+    split
+    · rfl
+    · split
+      · unfold registerOutcome; simp only; split
+        · rfl
+        · split <;> split <;> rfl
+      · rfl
+  have hbs : (getStatus c s i).1.base = s.base ∧ (getStatus c s i).1.spec = s.spec := by
+    unfold getStatus
+    simp only
+    split
+    · exact ⟨rfl, rfl⟩
+    · split
+      · unfold registerOutcome; simp only; split
+        · exact ⟨rfl, rfl⟩
+        · split <;> split <;> exact ⟨rfl, rfl⟩
+      · exact ⟨rfl, rfl⟩
+  refine UStep.of_same ?_ a2 hjs a3 a4 hbs.1 hbs.2
+  -- the queue invariant
+  unfold getStatus
+  simp only
+  split
+  · exact hU
+  · rename_i hc1
+    simp only [Bool.or_eq_true, decide_eq_true_eq, bne_iff_ne, ne_eq, not_or, Decidable.not_not] at hc1
+    obtain ⟨_, hp⟩ := hc1
+    have hU1 : InvU t0 (setTrk s i { getTrk s i with toCounter := some ((getTrk s i).toCounter.getD s.now) }) :=
+      InvU_set_aux (t := { getTrk s i with toCounter := some ((getTrk s i).toCounter.getD s.now) }) hU rfl rfl rfl rfl
+    split
+    · have hg1 : getTrk (setTrk s i { getTrk s i with toCounter := some ((getTrk s i).toCounter.getD s.now) }) i =
+          { getTrk s i with toCounter := some ((getTrk s i).toCounter.getD s.now) } := by
+        rw [getTrk_setTrk]; simp [hi1]
+      have hp1 : (getTrk (setTrk s i { getTrk s i with toCounter := some ((getTrk s i).toCounter.getD s.now) }) i).status = .pending := by
+        rw [hg1]; exact hp
+      rw [registerOutcome_error hp1]
+      exact InvU_register (t := { getTrk (setTrk s i { getTrk s i with toCounter := some ((getTrk s i).toCounter.getD s.now) }) i with status := .error, result := .exc .timeout })
+        hU1 hi0 (by simpa [setTrk] using hi1) hp1 (by simp) rfl (by simp [ho]) rfl
+    · exact hU1
+
 theorem firstErrorJob_some {s : St} : ∀ {l : List Nat}, (∃ i ∈ l, (getTrk s i).status = .error) →
     ∃ i, firstErrorJob s l = some i ∧ i ∈ l ∧ (getTrk s i).status = .error := by
   intro l
@@ -255,13 +358,19 @@ theorem pop_done {c : Cfg} {t0 : Nat} {s : St} {i : Nat} {rest : List Nat} (ho :
     ∃ s3, getResult { s with jobs := rest } i = (s3, .ok (getTrk s i).items) ∧ Inv c t0 s3 ∧
       (Post s → Post s3) ∧ restS s = (getTrk s i).items ++ restS s3 ∧ meas c s3 + 1 = meas c s ∧
       Frame s s3 ∧ s3.aborting = false ∧ s3.sched = s.sched ∧ s3.hung = s.hung ∧ s3.now = s.now ∧
-      s3.nbConsumed = s.nbConsumed ∧ s3.jobs = rest ∧ s3.parked = s.parked := by
+      s3.nbConsumed = s.nbConsumed ∧ s3.jobs = rest ∧ s3.parked = s.parked ∧ (InvB c t0 s → InvB c t0 s3) := by
   have hmem : i ∈ s.jobs := by rw [hj]; simp
   have htok := (h.T.tok i hmem).1 hd
   obtain ⟨hi0, hi1⟩ := h.T.jobs_own i hmem
   have hgi : getTrk { s with jobs := rest } i = getTrk s i := rfl
   rw [getResult_vals (s := { s with jobs := rest }) (l := (getTrk s i).items) htok (by rw [hgi, hd]; simp), hgi]
-  refine ⟨_, rfl, ?_, ?_, ?_, ?_, ⟨rfl, rfl, rfl, rfl, rfl, rfl, rfl, rfl, id⟩, hna, rfl, rfl, rfl, rfl, rfl, rfl⟩
+  refine ⟨_, rfl, ?_, ?_, ?_, ?_, ⟨rfl, rfl, rfl, rfl, rfl, rfl, rfl, rfl, id⟩, hna, rfl, rfl, rfl, rfl, rfl, rfl,
+    ?_⟩
+  rotate_left 4
+  · intro hB
+    refine InvB_mono hB (by simp [setTrk]) (fun j => ?_) rfl rfl rfl (Nat.le_refl _)
+    rw [getTrk_set (s := s) (s' := setTrk { s with jobs := rest } i { getTrk s i with result := .none }) rfl]
+    grind
   · -- the invariant
     obtain ⟨hT2, hni⟩ := InvT_pop (s' := { s with jobs := rest }) h.T hj (by rw [hd]; simp) hna rfl rfl rfl rfl rfl
       rfl rfl rfl rfl
@@ -296,5 +405,74 @@ theorem pop_error {c : Cfg} {t0 : Nat} {s : St} {i : Nat} {rest : List Nat}
   intro j
   rw [getTrk_set (s := s) (s' := setTrk { s with jobs := rest } i { getTrk s i with result := .none }) rfl]
   grind
+
+theorem perm_removeFirst_flatten (f : Nat → List Nat) (i : Nat) : ∀ (l : List Nat), i ∈ l →
+    (f i ++ ((removeFirst i l).map f).flatten).Perm ((l.map f).flatten) := by
+  intro l
+  induction l with
+  | nil => intro hm; simp at hm
+  | cons a t ih =>
+    intro hm
+    simp only [removeFirst]
+    by_cases hia : i = a
+    · subst hia; simp
+    · rw [if_neg hia]
+      simp only [List.mem_cons] at hm
+      have hm' : i ∈ t := by
+        rcases hm with hm | hm
+        · exact absurd hm hia
+        · exact hm
+      have h1 := ih hm'
+      simp only [List.map_cons, List.flatten_cons]
+      have h2 : (f i ++ (f a ++ ((removeFirst i t).map f).flatten)).Perm
+          (f a ++ (f i ++ ((removeFirst i t).map f).flatten)) := by
+        rw [← List.append_assoc, ← List.append_assoc]
+        exact List.Perm.append_right _ List.perm_append_comm
+      exact h2.trans (List.Perm.append_left _ h1)
+
+/-- `_jobs.popleft()`, `_jobs_set.remove(job)`, `get_result()` of a completed batch (unordered mode). -/
+theorem pop_done_u {c : Cfg} {t0 : Nat} {s : St} {i : Nat} {rest : List Nat} (ho : ordered c = false)
+    (h : Inv c t0 s) (hU : InvU t0 s) (hna : s.aborting = false) (hj : s.jobs = i :: rest)
+    (hd : (getTrk s i).status = .done) :
+    ∃ s3, getResult { s with jobs := rest, jobsSet := removeFirst i s.jobsSet } i = (s3, .ok (getTrk s i).items) ∧
+      Inv c t0 s3 ∧ InvU t0 s3 ∧ (Post s → Post s3) ∧
+      ((getTrk s i).items ++ restU s3).Perm (restU s) ∧ meas c s3 + 1 = meas c s ∧
+      Frame s s3 ∧ s3.aborting = false ∧ s3.sched = s.sched ∧ s3.hung = s.hung ∧ s3.now = s.now ∧
+      s3.parked = s.parked ∧ s3.trk.length = s.trk.length ∧ (InvB c t0 s → InvB c t0 s3) := by
+  have hmem : i ∈ s.jobs := by rw [hj]; simp
+  have htok := (h.T.tok i hmem).1 hd
+  obtain ⟨hi0, hi1⟩ := h.T.jobs_own i hmem
+  have hgi : getTrk { s with jobs := rest, jobsSet := removeFirst i s.jobsSet } i = getTrk s i := rfl
+  rw [getResult_vals (s := { s with jobs := rest, jobsSet := removeFirst i s.jobsSet }) (l := (getTrk s i).items)
+    htok (by rw [hgi, hd]; simp), hgi]
+  obtain ⟨hU2, hni, hset⟩ := InvU_pop (s' := { s with jobs := rest, jobsSet := removeFirst i s.jobsSet }) hU hj rfl rfl rfl
+  have hg3 := getTrk_set (s := s) (s' := setTrk { s with jobs := rest, jobsSet := removeFirst i s.jobsSet } i { getTrk s i with result := .none }) rfl
+  have hit : ∀ j, (getTrk (setTrk { s with jobs := rest, jobsSet := removeFirst i s.jobsSet } i { getTrk s i with result := .none }) j).items =
+      (getTrk s j).items := by intro j; rw [hg3]; grind
+  refine ⟨_, rfl, ?_, ?_, fun hp => hp, ?_, ?_, ⟨rfl, rfl, rfl, rfl, rfl, rfl, rfl, rfl, id⟩, hna, rfl, rfl, rfl, rfl,
+    by simp [setTrk], ?_⟩
+  · -- the invariant
+    obtain ⟨hT2, _⟩ := InvT_pop (s' := { s with jobs := rest, jobsSet := removeFirst i s.jobsSet }) h.T hj
+      (by rw [hd]; simp) hna rfl rfl rfl rfl rfl rfl rfl rfl rfl
+    have hT3 := InvT_consume (s' := setTrk { s with jobs := rest, jobsSet := removeFirst i s.jobsSet } i { getTrk s i with result := .none }) hT2
+      hni rfl rfl rfl rfl rfl rfl rfl rfl rfl
+    have hS3 := InvS_set_same (s' := setTrk { s with jobs := rest, jobsSet := removeFirst i s.jobsSet } i { getTrk s i with result := .none })
+      (t := { getTrk s i with result := .none }) h.S rfl rfl rfl rfl rfl rfl rfl rfl rfl rfl rfl rfl
+    refine ⟨hT3, hS3, InvL_of h.L id rfl id h.L.orig_exh,
+      IterPend_of h.P id id (by simp [setTrk]) (by intro _ j _; rw [hg3]; grind)⟩
+  · exact InvU_set_aux (t := { getTrk s i with result := .none }) hU2 rfl rfl rfl rfl
+  · -- the multiset of what remains
+    simp only [restU, hit]
+    show ((getTrk s i).items ++ ((List.map (fun j => (getTrk s j).items) (removeFirst i s.jobsSet)).flatten ++
+      s.ready.flatten ++ List.range' (s.base + s.srcPos) (s.spec.n - s.srcPos))).Perm _
+    have key := perm_removeFirst_flatten (fun j => (getTrk s j).items) i s.jobsSet hset
+    simp only [← List.append_assoc]
+    exact List.Perm.append_right _ (List.Perm.append_right _ key)
+  · simp only [meas, unpopped, ho, Bool.false_eq_true, if_false, work]
+    have := removeFirst_length hset
+    show (removeFirst i s.jobsSet).length + s.parked.length + 2 * (s.ready.length + (s.spec.n - s.srcPos)) + 1 = _
+    omega
+  · intro hB
+    exact InvB_mono hB (by simp [setTrk]) hit rfl rfl rfl (Nat.le_refl _)
 
 end JoblibModel.ParallelProto
